@@ -533,7 +533,11 @@ def do_eval(s, ref, op, world, step):
                 short(a, 600) + (a.tb if is_exc(a) else ''),
                 short(b, 600) + (b.tb if is_exc(b) else '')), step)
     if not is_exc(a):
-        world.log('eval', which, _loggable(a))
+        # (a non-finite score may come with an uninitialised gradient, which
+        # is memory garbage and must not enter the event log)
+        world.log('eval', which, _loggable(
+            a[0] if isinstance(a, tuple) and np.isscalar(a[0])
+            and not np.isfinite(a[0]) else a))
 
 
 def _loggable(a):
